@@ -10,12 +10,20 @@
 (* the rows above are then cleared by _mzd_top_echelonize_m4ri from (r, c)  *)
 (* with max_r = r.  A dense verdict before the first block hands the whole  *)
 (* matrix over.  The density estimate is sampled by design, so the verdict  *)
-(* is a parameter: DENSE is the set of columns at which a check, if made,   *)
-(* says "dense" (MC_EchelonHybrid takes every single column and none).      *)
+(* is a parameter: IsDense(R, m, n, r, c, D) with an opaque context D - in  *)
+(* MC_EchelonHybrid D is the set of columns at which a check, if made, says *)
+(* "dense" (every single column and none); the trace validator substitutes  *)
+(* the sampling of _mzd_density itself with D = the threshold and compares  *)
+(* the outcome with the code's bit for bit (model conformance).  TopK(r, n) *)
+(* is the table parameter the top reduction chooses for itself.  (With the  *)
+(* first-candidate pivot rule of both routes the non-reduced results are    *)
+(* the same rows wherever the switch happens - observed on every recorded   *)
+(* call - so the conformance check binds the composition and the k choice,  *)
+(* not the position of the switch.)                                         *)
 (***************************************************************************)
 EXTENDS EchelonPluq, Echelon
 
-CONSTANT GAP
+CONSTANTS GAP, IsDense(_, _, _, _, _, _), TopK(_, _)
 
 PluqOnWindow(R, m, n, full, r, c0) ==
   LET A == Mat(m, n, R)
@@ -23,18 +31,19 @@ PluqOnWindow(R, m, n, full, r, c0) ==
   IN [R |-> Embed(A, r, c0, E.A).r, rank |-> E.rank]
 
 RECURSIVE HLoop(_, _, _, _, _, _, _, _, _)
-HLoop(R, m, n, full, k, r, c, last, DENSE) ==
+HLoop(R, m, n, full, k, r, c, last, D) ==
   IF c >= n THEN [R |-> R, rank |-> r, handover |-> -1]
-  ELSE IF c > last + GAP /\ r < m /\ c \in DENSE
+  ELSE IF c > last + GAP /\ r < m /\ IsDense(R, m, n, r, c, D)
        THEN LET H == PluqOnWindow(R, m, n, full, r, WB * (c \div WB))
-                R1 == IF full /\ r > 0 THEN TopLoop(H.R, m, n, k, r, c, r, KM * k).R ELSE H.R
+                kt == TopK(r, n)
+                R1 == IF full /\ r > 0 THEN TopLoop(H.R, m, n, kt, r, c, r, KM * kt).R ELSE H.R
             IN [R |-> R1, rank |-> r + H.rank, handover |-> c]
        ELSE LET s == Step(R, m, n, full, k, r, c)
                 l2 == IF c > last + GAP THEN c ELSE last
-            IN IF s.stop THEN [R |-> s.R, rank |-> s.r, handover |-> -1] ELSE HLoop(s.R, m, n, full, k, s.r, s.c, l2, DENSE)
+            IN IF s.stop THEN [R |-> s.R, rank |-> s.r, handover |-> -1] ELSE HLoop(s.R, m, n, full, k, s.r, s.c, l2, D)
 
-EchelonHybrid(A, full, k, DENSE) ==
-  IF 0 \in DENSE
+EchelonHybrid(A, full, k, D) ==
+  IF IsDense(A.r, A.m, A.n, 0, 0, D)
   THEN LET H == PluqOnWindow(A.r, A.m, A.n, full, 0, 0) IN [A |-> Mat(A.m, A.n, H.R), rank |-> H.rank, handover |-> 0]
-  ELSE LET res == HLoop(A.r, A.m, A.n, full, k, 0, 0, 0, DENSE) IN [A |-> Mat(A.m, A.n, res.R), rank |-> res.rank, handover |-> res.handover]
+  ELSE LET res == HLoop(A.r, A.m, A.n, full, k, 0, 0, 0, D) IN [A |-> Mat(A.m, A.n, res.R), rank |-> res.rank, handover |-> res.handover]
 =============================================================================
